@@ -3,6 +3,7 @@ C15 - dataclass data layouts and field-name resolution: the full decision table 
 """
 from __future__ import annotations
 
+import collections
 import itertools
 import types
 import typing as t
@@ -61,6 +62,10 @@ def configs():
             hidden = dict(name='hidden', type=['list', 'int'], default=None, init=False, exclude=True, compare=False, repr=False, kw_only=False)
             yield idx, dict(spec, fields=[f1, hidden, f2], init_false_setter=[['hidden', '[]']])
             idx += 1
+        if not fn and not kw1:
+            # the second field excluded from OUTPUT: input names and binding are not affected
+            yield idx, dict(spec, fields=[f1, dict(f2, exclude=True)])
+            idx += 1
         if not kw1 and not kw2:
             # the same class written as a generic one (second field typed by a type variable) and subscripted with int: naming and
             # layout rules are those of the plain class
@@ -117,6 +122,10 @@ def data_for(spec, tier):
         yield tuple(vals)
     yield [5, 4]
     yield ['v', 'bad']
+    # real sequences that are neither list nor tuple bind positionally like them
+    yield collections.deque(['v'])
+    yield collections.deque(['v', 4])
+    yield collections.deque([5, 4])
     yield 'v4'
     yield b'v4'
     yield bytearray(b'v')
@@ -151,7 +160,7 @@ def run_config(pane, res, idx, spec, tier, only=None):
         if only is not None and di != only:
             continue
         res['states'] += 1
-        r = refmodel.ref_spec(spec, d)
+        r = refmodel.ref_spec(spec, list(d) if isinstance(d, collections.deque) else d)
         try:
             out = ('ok', pane.from_data(values.fresh(d), cls))
         except ConvertError as e:
